@@ -5,7 +5,7 @@
    correspondence check (harness/props/c14.py: omo_input). *)
 From Coq Require Import List Ascii String Bool Arith PrimFloat Permutation.
 From Verif Require Import Base.Result Base.Str Base.Sexp Base.PyDict Base.Float Model.State
-  Proofs.C14_Eq Proofs.C14_Main.
+  Proofs.C14_Text Proofs.C14_Eq Proofs.C14_Main.
 Import ListNotations.
 Open Scope string_scope.
 Open Scope list_scope.
@@ -101,6 +101,71 @@ Section Mutate.
   Proof. intros Hin. rewrite state_copy_id. apply discard_unequal, Hin. Qed.
 End Mutate.
 
+(* ---------- state_fluents[key].set_value(x) ---------- *)
+Lemma nodup_map_inj {A B} (g : A -> B) (l : list A) a b :
+  NoDup (map g l) -> In a l -> In b l -> g a = g b -> a = b.
+Proof.
+  induction l as [|y l IH]; intros N Ha Hb E; [destruct Ha|].
+  cbn [map] in N. inversion N as [|? ? Hn N']; subst.
+  destruct Ha as [->|Ha], Hb as [->|Hb]; [reflexivity| | |apply IH; assumption].
+  - exfalso. apply Hn. rewrite E. apply in_map, Hb.
+  - exfalso. apply Hn. rewrite <- E. apply in_map, Ha.
+Qed.
+
+Definition with_value (x : float) (f : pfun) : pfun :=
+  {| pf_name := pf_name f; pf_sig := pf_sig f; pf_val := x; pf_rep := pf_rep f; pf_int := false |}.
+
+Section SetValue.
+  Variable num_text : float -> string.
+
+  Lemma set_value_texts key x s :
+    fluent_texts num_text (set_fluent_value key x s) =
+    map (fun kv => pf_state_text num_text (if String.eqb (fst kv) key then with_value x (snd kv) else snd kv)) (st_fluents s).
+  Proof.
+    unfold fluent_texts, set_fluent_value, dvalues. cbn [st_fluents]. rewrite !map_map. apply map_ext. intros [k f].
+    cbn [fst snd]. destruct (String.eqb k key); reflexivity.
+  Qed.
+
+  Lemma with_value_text x f : pf_state_text num_text (with_value x f) = valued_text (pf_atom f) (num_text x).
+  Proof. rewrite pf_state_text_valued by reflexivity. reflexivity. Qed.
+
+  (* the datum it already holds (the same printed value): nothing changes *)
+  Theorem set_value_same key x s :
+    (forall f, In (key, f) (st_fluents s) -> pf_int f = false /\ num_text x = num_text (pf_val f)) ->
+    state_eq num_text (set_fluent_value key x s) s = true.
+  Proof.
+    intros H. apply state_eq_iff. split; [tauto|].
+    assert (E : fluent_texts num_text (set_fluent_value key x s) = fluent_texts num_text s).
+    { rewrite set_value_texts. unfold fluent_texts, dvalues. rewrite map_map. apply map_ext_in. intros [k f] Hin.
+      cbn [fst snd]. destruct (String.eqb k key) eqn:Ek; [|reflexivity]. apply String.eqb_eq in Ek. subst k.
+      destruct (H f Hin) as [Hi Ht]. rewrite with_value_text, Ht. symmetry. apply pf_state_text_valued, Hi. }
+    rewrite E. tauto.
+  Qed.
+
+  (* a value that prints differently (the other zero included): the state is unequal to what it was, both ways --
+     every fluent a clean float-valued one, no ground fluent held twice *)
+  Theorem set_value_unequal key x f s :
+    forallb pf_ok (dvalues (st_fluents s)) = true -> NoDup (map pf_atom (dvalues (st_fluents s))) ->
+    In (key, f) (st_fluents s) -> num_text x <> num_text (pf_val f) ->
+    state_eq num_text (set_fluent_value key x s) s = false /\ state_eq num_text s (set_fluent_value key x s) = false.
+  Proof.
+    intros Hok Nd Hin Hne.
+    assert (Hf : In f (dvalues (st_fluents s))) by (unfold dvalues; apply in_map_iff; exists (key, f); auto).
+    assert (H : state_eq num_text (set_fluent_value key x s) s = false).
+    { destruct (state_eq num_text (set_fluent_value key x s) s) eqn:E; [|reflexivity]. exfalso.
+      apply state_eq_iff in E as [_ E].
+      assert (T : In (valued_text (pf_atom f) (num_text x)) (fluent_texts num_text (set_fluent_value key x s))).
+      { rewrite set_value_texts. apply in_map_iff. exists (key, f). cbn [fst snd]. rewrite String.eqb_refl.
+        split; [apply with_value_text|exact Hin]. }
+      apply E in T. unfold fluent_texts in T. apply in_map_iff in T as (f2 & E2 & Hf2).
+      rewrite forallb_forall in Hok.
+      rewrite pf_state_text_valued in E2 by (apply pf_ok_float, Hok, Hf2).
+      apply valued_text_inj in E2 as [Ea En]; [|apply pf_ok_atom, Hok, Hf2|apply pf_ok_atom, Hok, Hf].
+      assert (f2 = f) by (eapply nodup_map_inj; eauto). subst f2. congruence. }
+    split; [exact H|]. rewrite state_eq_sym. exact H.
+  Qed.
+End SetValue.
+
 (* the hypotheses are satisfiable: a state with two facts in one group, one of them removed and put back *)
 Definition ex_g1 : gpred := {| gp_name := "p"; gp_sig := [("?x", "a")]; gp_map := [("?x", "o1")]; gp_pos := true |}.
 Definition ex_g2 : gpred := {| gp_name := "p"; gp_sig := [("?x", "a")]; gp_map := [("?x", "o2")]; gp_pos := true |}.
@@ -115,4 +180,17 @@ Proof.
   assert (W2 : gp_wf ex_g2) by (split; [reflexivity|apply NoDup_cons; [simpl; tauto|apply NoDup_nil]]).
   split; [exact W1|]. split; [apply Forall_cons; [exact W1|apply Forall_cons; [exact W2|apply Forall_nil]]|]. split; [left; reflexivity|]. split; [reflexivity|].
   cbn. intros [H|[]]. discriminate H.
+Qed.
+
+(* set_value on Proofs/C14_Examples.ex_s: the fluent (g a a) = -0.0 is given the OTHER zero; the result is ex_u *)
+From Verif Require Import Proofs.C14_Examples.
+
+Lemma ex_set_value_hypotheses :
+  forallb pf_ok (dvalues (st_fluents ex_s)) = true /\ NoDup (map pf_atom (dvalues (st_fluents ex_s))) /\
+  In ("(g a)", ex_pf "g" [("a", "t")] (-0) [("a", 2)]) (st_fluents ex_s) /\
+  ex_num_text 0 <> ex_num_text (-0) /\ set_fluent_value "(g a)" 0 ex_s = ex_u.
+Proof.
+  split; [vm_compute; reflexivity|]. split.
+  { cbn. repeat constructor; cbn; intuition discriminate. }
+  split; [right; left; reflexivity|]. split; [vm_compute; discriminate|reflexivity].
 Qed.
